@@ -124,6 +124,7 @@ def run(ctx):
         queue.append(({"type": "segmentation", "data_type": "uint32", "num_channels": 1,
                        "scales": [mk("old", [96, 48, 48], [48, 48, 48]), mk("new", [48, 24, 24], [24, 24, 24])]},
                       "many-labels"))
+    ds_pool = {}
     budget = ctx.budget(90, 2500) + len(queue)
     attempts = 0
     while n_done < budget and attempts < 10 * budget:
@@ -144,11 +145,22 @@ def run(ctx):
         if origin == "many-labels":
             method, opts = "majority", {}
         spelled = "auto" if method in ("average", "stride") and rng.random() < 0.5 else method
-        if spelled == "auto":   # the command-line default: resolved by the info's type, same options
-            ds = downscaling.get_downscaler("auto", {"type": "image" if method == "average" else "segmentation"},
-                                            opts)
+        # a downscaler object is a value: most of the time the object built for an earlier pyramid (of whatever data
+        # type and size) with the same method and options is used again, as a library caller converting several
+        # datasets in one process does; the reference object below is always fresh
+        pool_key = (spelled, method, json.dumps(opts, sort_keys=True))
+        if pool_key in ds_pool and rng.random() < 0.7:
+            ds, history = ds_pool[pool_key]
         else:
-            ds = downscaling.get_downscaler(method, info=None, options=opts)
+            if spelled == "auto":   # the command-line default: resolved by the info's type, same options
+                ds = downscaling.get_downscaler("auto", {"type": "image" if method == "average" else "segmentation"},
+                                                opts)
+            else:
+                ds = downscaling.get_downscaler(method, info=None, options=opts)
+            history = []
+            ds_pool[pool_key] = (ds, history)
+        earlier_types = sorted(set(history))
+        history.append(dt)
         nr = np.random.default_rng(rng.getrandbits(32))
         shape = (C, old["size"][2], old["size"][1], old["size"][0])
         if origin == "many-labels":
@@ -159,6 +171,7 @@ def run(ctx):
             vol = nr.integers(0, min(int(np.iinfo(dt).max), 2**31), size=shape).astype(dt) \
                 if method != "majority" else nr.integers(0, 4, size=shape).astype(dt)
         desc = {"origin": origin, "data_type": dt, "channels": C, "method": method, "method_spelling": spelled, "options": opts,
+                "downscaler_object_used_before_for": earlier_types,
                 "old": {k: old[k] for k in ("size", "chunk_sizes")}, "new": {k: new[k] for k in ("size", "chunk_sizes")}}
         outcomes = []
         for fill in (0xAB, 0x54):
